@@ -189,7 +189,7 @@ def c14_cases(tier):
     for tag, expr in (("groups-mixed", POOL[10][1]), ("empty-capable", POOL[2][1])) if tier == "quick" else [(t, e) for t, e, _ in POOL if t in ("groups-mixed", "empty-capable", "line-end", "groups-optional")]:
         # the path is shorter than most contents and matches nothing: a result computed from the path string instead of the
         # file content (wrong clip length, compiled-pattern shortcut that skips the read) differs
-        lines = ["p = %s" % expr, "if comp:\n    p.compile()", "path = 'q'", "log = []", "_premod.open = fake_open_factory(path, content, log)", "try:"]
+        lines = ["p = %s" % expr, "if comp:\n    p.compile()", "path = 'q'", "log = []", "fs = fake_fs(path, content, log)", "fs.__enter__()", "try:"]
         for m, extra in METHODS:
             it = m.startswith("iterate_")
             a = "p.%s(path%s, is_path=True)" % (m, extra)
@@ -198,7 +198,7 @@ def c14_cases(tier):
                 a, b = "list(%s)" % a, "list(%s)" % b
             lines.append("    if %s != %s:\n        return False" % (a, b))
         lines += ["    for f, mode, enc in log:", "        if f != path or mode != 'r' or enc != 'utf-8':", "            return False",
-                  "    if len(log) != %d:" % len(METHODS), "        return False", "finally:", "    del _premod.open", "return True"]
+                  "    if len(log) != %d:" % len(METHODS), "        return False", "finally:", "    fs.__exit__()", "return True"]
         cs.append(engine.raw_case("\n".join(lines), [("content", "str"), ("comp", "bool")], ["1 <= len(content) and len(content) <= 3"],
                                   "C14 %s %s: every method with is_path gives the same result for (path, is_path=True) as for the file content, compiled or not (symbolic), 1 <= |content| <= 3" % (tag, expr),
                                   helpers=helpers, concrete=[("", False), ("", True), ("a\nb\u00e9\n", False), ("xaby aab q", True), ("/no/such/dir/input.txt", False), ("q", True)]))
@@ -208,8 +208,8 @@ def c14_cases(tier):
             "if comp:\n    p.compile()\n"
             "exp = [content[max(x[1] - nl, 0):min(x[2] + nr, len(content))] for x in d]\n"
             "if p.get_matches_with_context(content, nl, nr) != exp or list(p.iterate_matches_with_context(content, nl, nr)) != exp:\n    return False\n"
-            "_premod.open = fake_open_factory(path, content, log)\n"
-            "try:\n    if p.get_matches_with_context(path, nl, nr, is_path=True) != exp:\n        return False\nfinally:\n    del _premod.open\n"
+            "fs = fake_fs(path, content, log)\nfs.__enter__()\n"
+            "try:\n    if p.get_matches_with_context(path, nl, nr, is_path=True) != exp:\n        return False\nfinally:\n    fs.__exit__()\n"
             "return True")
         cs.append(engine.raw_case(body, [("content", "str"), ("nl", "int"), ("nr", "int"), ("comp", "bool")], ["1 <= len(content) and len(content) <= 3 and 0 <= nl and nl <= 4 and 0 <= nr and nr <= 4"],
                                   "C14 %s %s: context windows == text[max(s-nl,0):min(e+nr,len)] for string and file sources, nl, nr in [0,4] and compiled state symbolic" % (tag, expr),
@@ -256,6 +256,6 @@ def run(prop, tier):
                        "(relib + the fixes in vlib/symx/plugin.py) stands for the engine on both sides, so a discrepancy can only come from the wrapper code",
                        "replace(): inside the symbolic run re.sub is rebuilt on finditer (same scan; CPython's documented behaviour) - what is decided is that pattern, "
                        "replacement, text, count and flags reach it unchanged; every counterexample is replayed with the real re.sub",
-                       "file I/O is a stub injected as module global `open` of pregex.core.pre returning the symbolic content for the given path (real file-system errors out of scope)"]
+                       "file I/O is a stub (hlib.fake_fs) installed as module global `open` of pregex.core.pre and as builtins.open / io.open for the duration of the call: the relative path holds the symbolic content, any other relative path does not exist (real file-system errors out of scope)"]
     return run.finish(explanation="CrossHair/z3 symbolic execution of the real wrapper methods on a symbolic source text; post-condition = equality with what re itself finds; "
                       "'Confirmed over all paths' = holds for every text within the bound (and every history / flag / window value).")
